@@ -42,6 +42,23 @@ CHECKS['C15'] = dict(cat='proof', ref='DESIGN.md section 3 C15',
     text='The real ReversibleHeun.step executed on abstract tensors (module over scalars, bilinear prod, uninterpreted f, g) from an arbitrary consistent carried state, then again on the negated time-reversed SDE through the real ReverseBrownian: returns exactly the original (y0, -f0, -g0, z0). All batch/state/noise sizes, all four noise types.',
     note='T1 (rounding / stability), T6, T7',
     tech=TECH.format(engine='exact polynomial normal form over tensor atoms (A domain)'))
+HEAP = TECH.format(engine='z3 over a symbolic heap (arrays + guarded quantifiers), case split, hypothesis slicing with explicit instances, finite-scope refuter with validated rounding models')
+CHECKS['C04'] = dict(cat='proof', ref='DESIGN.md section 3 C04',
+    text='The law is decided by coefficients: linearity and the ten single-split covariance identities proved (z3, all split ratios) from the bridge formulas extracted from the real source; Davie/Foster: antisymmetry, conditional mean and prescribed variance on explicit tensors; seeds: (spawn_key, depth) injective on nodes, noise drawn from the parent seeds at the full sample shape; constructor: top-level scaling sqrt(t1-t0), sqrt((t1-t0)/12), user W/H stored unchanged.',
+    note='T1,T2,T4 (Gaussianity/independence of seeded streams),T5,T6; induction over histories is meta-level; Levy-area job dimension-bounded (m=2)',
+    tech=HEAP)
+CHECKS['C05'] = dict(cat='proof', ref='DESIGN.md section 3 C05',
+    text='Stability (every tree mutator only refines leaves: refines frame proved for _split_exact/_split/_loc_inner/_loc for all heaps), value determinism (a node value depends only on parent W,H, parent geometry and parent-seeded noise; the cache stores exactly the returned value), cache transparency (_LRUDict.__setitem__ may forget, never alters, bounded; _EmptyDict), wrappers forward to the same object without writing to it (in-place guard).',
+    note='T1,T2,T6; bit-identity decided as operation-sequence identity; decomposition determinism after refinement NOT decided (stated in evidence)',
+    tech=HEAP)
+CHECKS['C06'] = dict(cat='proof', ref='DESIGN.md section 3 C06',
+    text='Determinism (no nondeterministic construct except randint under entropy=None; constructor derives all seeds from SeedSequence(entropy)), dyadic split points depend only on the node (postcondition of the real _split), BrownianTree/BrownianPath constructors, wrappers never update borrowed tensors in place.',
+    note='T1,T2,T6; "different entropies differ" and cross-history equality of decompositions are not decided (stated in evidence)',
+    tech=HEAP)
+CHECKS['C07'] = dict(cat='proof', ref='DESIGN.md section 3 C07',
+    text='no-raise obligations at every dereference/division/index of the real tree code under the well-formedness invariant; call-site preconditions (_split: leaf + strictly inside point; _loc: round(ta) < round(tb)); decreases measure for dyadic _split in grid units; trampolining of the recursive search checked syntactically; _LRUDict bound; _create_dependency_tree exception-free with piece_length > 0; constructor dispatch.',
+    note='T1,T5,T6; termination of the non-dyadic search and of the dependency-tree loop argued, not mechanised; in-range queries',
+    tech=HEAP)
 REASONS = {}
 checks = []
 for p in props:
